@@ -179,6 +179,21 @@ def branch_conditions(fn, inst, depth=0):
     return out
 
 
+def conditions_at(fn, inst):
+    """(guard, truth) pairs that hold when `inst` executes; for a store of a non-constant boolean they additionally include
+    what the stored value being TRUE implies (`status = a() && b();` then means: where status is true, a() and b() were true)"""
+    out = list(branch_conditions(fn, inst))
+    if inst.op in ("store", "ret") and "val" in inst.d and const_of(fn, inst["val"]) is None:
+        v = strip_casts(fn, inst["val"])
+        vi = fn.resolve(v)
+        if vi is not None and vi.op == "load":
+            v = resolve_local(fn, v)
+            vi = fn.resolve(v)
+        if vi is not None and vi.op in ("phi", "icmp", "call", "xor"):
+            _implied(fn, v, True, inst.bb.id, out, 0)
+    return out
+
+
 def cond_call(fn, cond, truth=True, depth=0):
     """condition operand -> (call inst, polarity) when it is a (possibly negated / compared-with-zero) call result"""
     i = fn.resolve(strip_casts(fn, cond))
@@ -186,6 +201,13 @@ def cond_call(fn, cond, truth=True, depth=0):
         return None, None
     if i.op == "call":
         return i, truth
+    if i.op == "load":
+        # 'const bool ok = f(x); ... if (ok && ...)': a local assigned exactly once, never address-taken
+        o2 = resolve_local(fn, {"k": "inst", "id": i.id})
+        j = fn.resolve(o2)
+        if j is not None and j.id != i.id:
+            return cond_call(fn, o2, truth, depth + 1)
+        return None, None
     if i.op == "icmp" and const_of(fn, i["b"]) == 0 and i["pred"] in ("eq", "ne"):
         return cond_call(fn, i["a"], truth if i["pred"] == "ne" else not truth, depth + 1)
     if i.op == "xor" and const_of(fn, i["b"]) in (1, -1):
@@ -311,10 +333,38 @@ def resolve_local(fn, o):
         if a.op != "alloca":
             return oo
         st = [s for s in fn.all_insts() if s.op == "store" and s["ptr"].get("k") == "inst" and s["ptr"]["id"] == a.id]
-        if len(st) != 1:
+        if len(st) != 1 or _escapes(fn, a):
             return oo
         o = st[0]["val"]
     return o
+
+
+def _escapes(fn, a):
+    """the alloca's address is used other than as the pointer of a load/store (passed to a call, stored, cast, indexed)"""
+    c = getattr(fn, "_escape_cache", None)
+    if c is None:
+        c = fn._escape_cache = {}
+    if a.id in c:
+        return c[a.id]
+    esc = False
+    for i in fn.all_insts():
+        if i.op in ("load", "alloca"):
+            continue
+        if i.op == "call" and i.callee in ("llvm.dbg.declare", "llvm.dbg.value", "llvm.lifetime.start.p0i8", "llvm.lifetime.end.p0i8"):
+            continue
+        for k, v in i.d.items():
+            if i.op == "store" and k == "ptr":
+                continue
+            vs = v if isinstance(v, list) else [v]
+            for x in vs:
+                if isinstance(x, dict) and x.get("k") == "inst" and x.get("id") == a.id:
+                    esc = True
+                elif isinstance(x, (list, tuple)):
+                    for y in x:
+                        if isinstance(y, dict) and y.get("k") == "inst" and y.get("id") == a.id:
+                            esc = True
+    c[a.id] = esc
+    return esc
 
 
 def field_chain(P, fn, o, depth=0):
